@@ -177,3 +177,95 @@ def run_c16(tier, replay=None):
 
 def run_c19(rep, tier, sd):
     behaviours(rep, "C19", tier, sd)
+    orphans_race(rep, tier)
+
+
+# ---------------------------------------------------------------- orphans vs a starting run (XpmOrphansRace.tla)
+def _w_orphans_race(k):
+    """One real `orphans --clean` during which, at the k-th step of its directory listings (call of Path.glob or item
+    produced by one), a new run of the experiment starts (experiment.__enter__ moves the links to jobs.bak).
+    Returns (number of steps seen, order in which index / backup index were listed, deleted job names)"""
+    import pathlib
+
+    from . import ws
+
+    h = ws.Harness(())
+    try:
+        h.run("x", ["1", "2", "3"], "ok")
+        from experimaestro import experiment
+
+        state = {"n": 0, "xp": None, "order": []}
+        real_glob = pathlib.Path.glob
+
+        def tick():
+            state["n"] += 1
+            if state["n"] == k and state["xp"] is None:
+                pathlib.Path.glob = real_glob
+                try:
+                    state["xp"] = experiment(h.wd, "x", launcher=h.launcher, port=-1)
+                    state["xp"].__enter__()
+                finally:
+                    pathlib.Path.glob = glob
+
+        def glob(self, pattern):
+            inside = str(self).startswith(str(h.wd))
+            if inside:
+                if self.name in ("jobs", "jobs.bak") and self.parent.parent.name == "xp":
+                    state["order"].append(self.name)
+                tick()
+            for x in real_glob(self, pattern):
+                if inside:
+                    tick()
+                yield x
+            if inside:
+                tick()
+
+        pathlib.Path.glob = glob
+        try:
+            r = h.orphans(True, False)
+        finally:
+            pathlib.Path.glob = real_glob
+        err = repr(r.exception)[:200] if r.exception is not None and not isinstance(r.exception, SystemExit) else None
+        deleted = sorted(n for n, (task, ident) in h.ids.items() if not (h.wd / "jobs" / task / ident).is_dir())
+        if state["xp"] is not None:
+            try:
+                raise RuntimeError("leave without dropping the backup")
+            except RuntimeError:
+                state["xp"].__exit__(*sys.exc_info())
+        return state["n"], state["order"], deleted, err
+    finally:
+        h.close()
+
+
+def orphans_race(rep, tier):
+    for cfgname, expect in (("MC_OrphansRace_ok.cfg", True), ("MC_OrphansRace_swapped.cfg", False)):
+        res = tlc.tlc("XpmOrphansRace.tla", cfgname, timeout=600)
+        rep.add_tlc(cfgname[:-4], res, "index listed before the backup index" if expect else "the other order (must fail: demonstrates what the order protects)")
+        if expect and res.violation:
+            rep.violation(f"C19/model/{res.violation[1]}", f"TLC: {res.violation} in XpmOrphansRace", {"tlc_tail": res.out[-1500:]})
+        elif expect and res.error:
+            rep.machinery_failure("TLC failed on XpmOrphansRace: " + str(res.error))
+        elif not expect and not res.violation:
+            rep.machinery_failure("XpmOrphansRace does not distinguish the two listing orders")
+    with ProcessPoolExecutor(max_workers=1, initializer=_w_init) as ex:
+        n, order, deleted, err = ex.submit(_w_orphans_race, 10**9).result()
+    if err or deleted:
+        rep.violation("C19/orphans-race/baseline", f"orphans --clean without interference: error {err}, deleted {deleted}", {"k": None})
+        return
+    # conformance of the listing order with the specification (Order = <<"idx", "bak">>)
+    firsts = [x for i, x in enumerate(order) if x not in order[:i]]
+    if firsts != ["jobs", "jobs.bak"][: len(firsts)] or "jobs" not in order:
+        rep.violation("C19/orphans-race/listing-order", f"orphans lists {order}: the specification requires the index before the backup index", {"order": order})
+    ks = list(range(1, n + 2, 1 if tier == "thorough" or n < 40 else 2))
+    with ProcessPoolExecutor(max_workers=16, initializer=_w_init) as ex:
+        out = list(ex.map(_w_orphans_race, ks))
+    for k, (_, order_k, deleted, err) in zip(ks, out):
+        rep.cov["evaluations"] += 1
+        if err:
+            rep.violation("C19/orphans-race/exception", f"a run starting at step {k} of the listings makes orphans fail: {err}", {"k": k})
+        elif deleted:
+            rep.violation("C19/orphans-race/referenced-job-deleted", f"a run of the experiment starting at step {k} of the listings of `orphans --clean` "
+                          f"makes it delete the jobs {deleted}, which were linked by the index or its backup all along", {"k": k})
+        else:
+            rep.cov["traces_validated_against_impl"] += 1
+    rep.cov["orphans_race"] = {"listing_steps": n, "interleavings": len(ks), "listing_order": order}
